@@ -599,7 +599,7 @@ struct app {
         else if (op == "wdeliver") { // first n more bytes of the pending write reach the broker
             bool ok = false;
             for (auto& st : w.streams) if (st->wr) { w.deliver_write(*st, s.contains("nb") ? (size_t) jint(s, "nb", 0) : SIZE_MAX); ok = true; }
-            if (!ok) jev("diverged").str("step", op);
+            if (!ok && !jint(s, "opt", 0)) jev("diverged").str("step", op);      // opt: a step that may have nothing to act on
         }
         else if (op == "wend") { // complete the pending write (after delivering the rest unless an error is given)
             bool ok = false;
@@ -609,7 +609,7 @@ struct app {
                 else { auto* cn = w.find_conn(st->conn_id); if (cn) { cn->dead = true; cn->dead_ec = sim::ec_from(e); w.conn_end(*cn, "fault"); } w.finish_write(*st, sim::ec_from(e)); }
                 ok = true; break;
             }
-            if (!ok) jev("diverged").str("step", op);
+            if (!ok && !jint(s, "opt", 0)) jev("diverged").str("step", op);
         }
         else if (op == "conn_ok" || op == "conn_fail") {
             bool ok = false;
